@@ -17,7 +17,7 @@ RULE = ("reader: the full matrix dtype(10) x byte order(<,>,| for 1-byte types) 
         "astype(float64); Fortran-ordered and unsupported-dtype files (complex, bool, f2, unicode, timedelta) must be "
         "rejected by both. writer: for a shape of EVERY header length modulo 64 (1-27 axes) numpy.load must accept the "
         "file written by write_npy and return the same shape and bit-identical values; the model's structural theorem covers "
-        "all shapes. non-trivial = file with a non-f8 dtype or a non-default header spelling; headers aligned to 16 bytes (numpy <= 1.13) and not padded at all; data whose first bytes are spaces / line feeds; data whose last byte is an ASCII whitespace code; hand-built files declaring fortran_order True with one and more axes")
+        "all shapes. non-trivial = file with a non-f8 dtype or a non-default header spelling; headers aligned to 16 bytes (numpy <= 1.13) and not padded at all; data whose first bytes are spaces / line feeds; data whose last byte is an ASCII whitespace code; hand-built files declaring fortran_order True with one and more axes; numpy files of every element type through chunk schedules of 1, 3, 5, 7 bytes")
 
 
 def check(rep, tier, seed):
@@ -73,6 +73,19 @@ def check(rep, tier, seed):
                          stdin_hex=open(m["path"], "rb").read().hex()[:4000], observed=g[:300], expected=want[:300],
                          detail="%s disagrees with numpy's astype(float64) on a file written by numpy" % who,
                          failing_input=(who == "implementation"))
+    # the same files delivered in pieces that cut the elements apart (1, 3, 5, 7 bytes per read: no element type is read from
+    # ONE buffer refill): Array::read_npy over the chunk-scheduled source vs the stream model, and the whole-buffer values
+    strat_c = {}
+    for m in metas:
+        if not m.get("reject"):
+            strat_c.setdefault((m["dtype"], m["order"], m["version"] if m["version"] > 1 else 1), m)
+    ccases, cwant = [], []
+    for m in list(strat_c.values())[:: 1 if tier == "thorough" else 2]:
+        hexb = open(m["path"], "rb").read().hex()
+        L = len(hexb) // 2
+        for sc in ([1] * L, [3] * L, [5] * L, [7] * L, [L - 3, 2, 1], [11, 13] * L):
+            ccases.append("cnpy %s %s -" % (hexb, fmt(sc))); cwant.append((m, "OK %s %s" % (fmt(m["shape"]), ",".join("b" + b for b in m["bits"]))))
+    mo_c, outs_c = compare_cases(rep, "numpy-files-chunked", ccases, nontrivial=lambda c, m: True, classify=lambda c, m, i: "npy-reader:chunked", spec=True)
     # the same files through the BINARY (the reader of view / fold / stat in front of the npy reader: input handling, format
     # detection): `sfs view -O npy` on stdin must give numpy's float64 values back, bit for bit
     import struct as _s2
